@@ -235,9 +235,10 @@ fn boundary_section(ctx: &Ctx, rng: &mut Rng, rec: &mut Rec, thorough: bool) {
 	}
 	let mid = rng.range(300, attr_exact as u64 - 3) as usize;
 	sizes.push((mid, false, "mid".into())); sizes.push((rng.range(attr_exact as u64 + 3, legacy_exact as u64 - 3) as usize, true, "between".into()));
-	let n_routes = if thorough { 6 } else { 2 };
+	let n_routes = if thorough { 8 } else { 3 };
 	for r in 0..n_routes {
-		let n = if r == 0 { 6 } else if r == 1 { 3 + rng.below(3) as usize } else { 2 + rng.below(25) as usize };
+		// 6 hops (every failing position); a short route; one longer than MAX_HOPS (hold times of the first 20 hops only); then random
+		let n = if r == 0 { 6 } else if r == 1 { 3 + rng.below(3) as usize } else if r == 2 { 21 + rng.below(6) as usize } else { 2 + rng.below(25) as usize };
 		let c = draw_case(ctx, rng, n, false, true);
 		let ss = vh::shared_secrets(&ctx.secp, &c.path, &c.session);
 		for (dlen, legacy, label) in sizes.iter() {
